@@ -318,7 +318,10 @@ def write(model, path):
     for dec in sp.get("decoys", []):
         os.makedirs(os.path.join(path, dec), exist_ok=True)
     _write_info(model, os.path.join(d, f"info_{tag}.txt"))
-    _write_descriptor(os.path.join(d, "hydro_file_descriptor.txt"), [(n, "d") for n in sp["hydro"]])
+    # (RAMSES itself writes every hydro variable as a double; the descriptor format has a type column, which osyris
+    #  honours - spec["hydro_types"] = {name: "i"} stores a variable as int32, used by C13 on single-CPU outputs only)
+    ht = sp.get("hydro_types") or {}
+    _write_descriptor(os.path.join(d, "hydro_file_descriptor.txt"), [(n, ht.get(n, "d")) for n in sp["hydro"]])
     if sp["rt"]:
         _write_descriptor(os.path.join(d, "rt_file_descriptor.txt"), [(n, "d") for n in sp["rt"]])
     if sp["part"]:
@@ -492,9 +495,14 @@ def _write_cells(model, cpu, fname, kind):
             f.ints([len(lst)], f"L{lev}D{dom}:ncache")
             if not lst:
                 continue
+            ht = (sp.get("hydro_types") or {}) if kind == "hydro" else {}
             for ind in range(model.ttd):
                 for iv in range(nvar):
-                    f.dbls([model.value(o, ind, iv, kind, cpu) for o in lst], f"L{lev}D{dom}:c{ind}v{iv}")
+                    vals = [model.value(o, ind, iv, kind, cpu) for o in lst]
+                    if ht.get(names[iv]) == "i":
+                        f.ints([int(v) for v in vals], f"L{lev}D{dom}:c{ind}v{iv}")
+                    else:
+                        f.dbls(vals, f"L{lev}D{dom}:c{ind}v{iv}")
     return f.close()
 
 
@@ -573,7 +581,9 @@ def make_sink(rng, spec):
 
 
 def sink_value(row, icol):
-    return float((row + 1) * 100 + icol) + 0.125
+    # even columns ascend with the row, odd columns descend: sorting by an odd column really reorders the table
+    code = (row + 1) if icol % 2 == 0 else (97 - row)
+    return float(code * 100 + icol) + 0.125
 
 
 def _write_sink(model, fname):
